@@ -1840,6 +1840,12 @@ def check(program, rep):
     rep.guard("C07-R4", C07.r4_addresses, program, folder, rep)
     rep.guard("C14-R6", r6_version, program, rep)
     rep.guard("C14-R6", r6_pack_table, program, folder, rep)
+    # the reservations made for one probe are used with that probe's
+    # description only: the function that puts the two together does not
+    # leave them in the caller's constraint list (C17-R1)
+    from . import C17
+    rep.guard("C17-R1", C17.r1_for, program, rep,
+              ["rig.place_and_route.wrapper"])
     # arguments handed to package functions under the wrong name / same-
     # named optional parameters not passed on (NAMELINK, DESIGN.md 9.13)
     from .. import namelink as _nl
